@@ -31,11 +31,17 @@ type c04World struct {
 	failOnRun int // run number that returns an error (0: never)
 	retryOnRun int
 	lastOK   bool
+	registered map[*Resource]bool // AddDependency has returned for the resource
+	hit        map[*Resource]bool // invalidated at any time, or strobed after registration
+	lastRes    []*Resource        // resources the last successful run depended on
 }
 
 var c04Err = errors.New("compute failed")
 
 func (w *c04World) compute(ctx context.Context) (interface{}, error) {
+	if w.registered == nil {
+		w.registered, w.hit = map[*Resource]bool{}, map[*Resource]bool{}
+	}
 	w.active++
 	nondet.Assert(w.active <= 1, "no-overlap")
 	if w.stopped {
@@ -48,12 +54,15 @@ func (w *c04World) compute(ctx context.Context) (interface{}, error) {
 		return nil, c04Err
 	}
 	read := make([]int, w.k)
+	var mine []*Resource
 	for i := 0; i < w.k; i++ {
 		// register the dependency, then read (the order livesql uses)
 		r := NewResource()
 		w.res[i] = append(w.res[i], r)
 		nondet.Yield() // registering with a tracker and AddDependency are separate steps
 		AddDependency(ctx, r, nil)
+		w.registered[r] = true
+		mine = append(mine, r)
 		read[i] = w.version[i]
 	}
 	w.active--
@@ -65,13 +74,14 @@ func (w *c04World) compute(ctx context.Context) (interface{}, error) {
 		return nil, RetrySentinelError
 	}
 	w.read = read
+	w.lastRes = mine
 	w.lastOK = true
 	return nil, nil
 }
 
 func c04Run(k, writers int, withStop bool, maxRuns int, full bool) {
 	WriteThenReadDelay = 0
-	w := &c04World{k: k, maxRuns: maxRuns}
+	w := &c04World{k: k, maxRuns: maxRuns, registered: map[*Resource]bool{}, hit: map[*Resource]bool{}}
 	for i := 0; i < k; i++ {
 		w.res = append(w.res, nil)
 		w.version = append(w.version, 0)
@@ -107,8 +117,14 @@ func c04Run(k, writers int, withStop bool, maxRuns int, full bool) {
 				registered := append([]*Resource{}, w.res[target]...)
 				for _, r := range registered {
 					if strobe {
+						// a strobe only reaches the dependants the resource has at that moment
+						if w.registered[r] {
+							w.hit[r] = true
+						}
 						r.Strobe()
 					} else {
+						// an invalidated resource stays invalid: whoever depends on it, now or later, must re-run
+						w.hit[r] = true
 						r.Invalidate()
 					}
 				}
@@ -131,6 +147,11 @@ func c04Run(k, writers int, withStop bool, maxRuns int, full bool) {
 		nondet.Assert(w.lastOK, "ran-at-least-once")
 		for i := 0; i < k; i++ {
 			nondet.Assert(w.read[i] == w.version[i], "fresh-at-quiescence")
+		}
+		// the statement itself: no resource the last successful run depended on has been
+		// invalidated (or strobed while registered) without a later run
+		for _, r := range w.lastRes {
+			nondet.Assert(!w.hit[r], "rerun-after-invalidation")
 		}
 		nondet.Cover("fresh")
 	}
